@@ -33,6 +33,10 @@ def run(ctx):
                         solve_time=16 * dt - dt / 2, screening=True))
     physics.append(dict(label="bar/unpinned/fixed", dev="bar", current=2.0, field=0.3, adaptive=False, dt=dt, terminal_psi=None,
                         solve_time=10 * dt - dt / 2))
+    # time-dependent drives at a fixed step: the update reads the step size and the previous potential (dA/dt), so every
+    # piece of loop bookkeeping around the update call (progress lines, saving) is on the path of the physics
+    physics.append(dict(label="bar/ramp/fixed", dev="bar", current=2.0, current_ramp=0.2, field=1.0, field_ramp=0.3, adaptive=False, dt=dt,
+                        solve_time=18 * dt - dt / 2))
     if not ctx.quick:
         physics += [
             dict(label="bar/ramp", dev="bar", current=10.0, current_ramp=1.0, field=1.5, field_ramp=1.0, adaptive=True, dt=dt, dt_max=2.0,
@@ -40,7 +44,7 @@ def run(ctx):
             dict(label="bar/thermal", dev="bar", current=3.0, field=0.4, adaptive=False, dt=dt, solve_time=12 * dt - dt / 2, skip_time=5 * dt - dt / 2),
         ]
     recordings = [dict(k=1), dict(k=2, out="temp"), dict(k=3, probes=0), dict(k=5, probes=3, progress=3),
-                  dict(k=7, out="temp", probes=0), dict(k=100, progress=0)]
+                  dict(k=7, out="temp", probes=0), dict(k=100, progress=0), dict(k=4, progress=1), dict(k=6, progress=7)]
     jobs, fam = [], []
     for ph in physics:
         for rc in recordings:
